@@ -1,5 +1,6 @@
 import copy
 import enum
+import re
 from typing import Tuple
 
 import valida.data
@@ -157,11 +158,16 @@ class DataPath:
 
         REPLACE = "path"
         ESC_CODE = rf"\{REPLACE}"
-        if any(isinstance(k, str) and ESC_CODE in k for k in spec.keys()):
+        if any(isinstance(k, str) and ESC_CODE in k.lower() for k in spec.keys()):
             # an escaped literal mapping: return an un-escaped copy (not a `DataPath`),
-            # leaving the caller's mapping as it is
+            # leaving the caller's mapping as it is (like the spec key itself, the escape
+            # is recognised in any letter case)
             return {
-                (k.replace(ESC_CODE, REPLACE) if isinstance(k, str) else k): v
+                (
+                    re.sub(rf"\\({REPLACE})", r"\1", k, flags=re.IGNORECASE)
+                    if isinstance(k, str)
+                    else k
+                ): v
                 for k, v in spec.items()
             }
 
